@@ -129,7 +129,23 @@ func (h *H) overP() [][]byte {
 	return out
 }
 
+// keysWithSpecialX: encodings of curve points whose x is tiny, sits in [N, P), is just below P or has cleared /
+// saturated limb windows - every parser, both compressed tags and the uncompressed form
+func (h *H) keysWithSpecialX(n int) {
+	for _, pt := range h.pointsWithSpecialX(n) {
+		x, y := be32(pt[0]), be32(pt[1])
+		tag := byte(2 + y[31]&1)
+		enc := append([]byte{tag}, x...)
+		h.do("special-x", "pubkey_parse", hx(enc))
+		h.do("special-x", "pubkey_roundtrip", hx(enc))
+		h.do("special-x", "schnorr_pubkey_parse", hx(enc))
+		h.do("special-x", "pubkey_parse", hx(append(append([]byte{4}, x...), y...)))
+		h.do("special-x", "pubkey_parse", hx(append(append([]byte{6 + y[31]&1}, x...), y...)))
+	}
+}
+
 func genC08(h *H) {
+	h.keysWithSpecialX(2 * h.budget)
 	cat := func(parts ...[]byte) []byte {
 		var o []byte
 		for _, p := range parts {
